@@ -15,7 +15,7 @@ RULE = ("programs = destructure! invocations from a pattern grammar: braced stru
         "field value is built from ledger-tracked Drop values with distinct ids; oracle (inside the program): right after the "
         "macro statement every id matched by `_` / `..` has been dropped exactly once and every bound id is live with its "
         "payload intact; the bound values arrive in declaration order with the original ids; after dropping them every id "
-        "has been dropped exactly once; non-trivial = a `_`/`..` next to a bound Drop field, or a packed struct, or arity >= 8, "
+        "has been dropped exactly once; in a fifth of the programs with an ignored element that element's destructor panics (inside catch_unwind): nothing may then be dropped twice; non-trivial = a `_`/`..` next to a bound Drop field, or a packed struct, or arity >= 8, "
         "counted per distinct program")
 
 PRELUDE = r'''
@@ -40,7 +40,22 @@ impl Drop for T {
         if payload != 7000 + id as u64 * 13 { err(format!("id {} dropped with a changed payload {}", id, payload)); }
         LEDGER.with(|l| { let mut l = l.borrow_mut(); let e = l.1.entry(id).or_insert(0); *e += 1; if *e > 1 { let n = *e; l.2.push(format!("id {} dropped {} times", id, n)); } });
         self.magic = 0xDEAD;
+        // an armed value panics in its destructor, once (after its drop has been recorded)
+        if BOMB.with(|b| b.get()) == Some(id) { BOMB.with(|b| b.set(None)); panic!("destructor of id {} panics", id); }
     }
+}
+thread_local! { static BOMB: std::cell::Cell<Option<u32>> = const { std::cell::Cell::new(None) }; }
+pub fn arm(id: u32) { BOMB.with(|b| b.set(Some(id))); }
+/// verdict of a run whose ignored element panicked in its destructor: unwinding may leak, but nothing may be dropped twice
+pub fn finish_unwound(total: u32) -> Vec<String> {
+    BOMB.with(|b| b.set(None));
+    LEDGER.with(|l| {
+        let l = l.borrow();
+        let mut e: Vec<String> = l.2.iter().filter(|m| m.contains("dropped") && m.contains("times")).cloned().collect();
+        for id in 0..total { let d = l.1.get(&id).copied().unwrap_or(0); if d > 1 { e.push(format!("id {} dropped {} times on the unwinding path", id, d)); } }
+        e.sort(); e.dedup();
+        e
+    })
 }
 pub trait Ids { fn ids(&self, out: &mut Vec<u32>); }
 impl Ids for T { fn ids(&self, out: &mut Vec<u32>) {
@@ -270,6 +285,15 @@ def gen_array(rng, i):
 
 
 def gen(rng, i, only_packed=False):
+    g = gen_plain(rng, i, only_packed)
+    decl, mk, stmt, bound, want, dropped, total, desc, nt = g
+    if dropped and not only_packed and rng.random() < 0.2:
+        desc = dict(desc, bomb=rng.choice(dropped))
+        return decl, mk, stmt, bound, want, dropped, total, desc, True
+    return g
+
+
+def gen_plain(rng, i, only_packed=False):
     shape = rng.choice(["braced", "braced", "tuple_struct", "tuple_struct", "tuple", "tuple", "array", "array", "array"])
     if only_packed:
         return gen_struct(rng, i, rng.random() < 0.5, force_packed=True)
@@ -284,6 +308,15 @@ def gen(rng, i, only_packed=False):
 
 def render_fn(i, g):
     decl, mk, stmt, bound, want, dropped, total, desc, nt = g
+    if desc.get("bomb") is not None:
+        # the destructor of one ignored element panics while the macro statement runs: the bindings moved out so far and
+        # the rest of the aggregate are dropped by unwinding - each at most once
+        body = ["    reset();", "    arm(%d);" % desc["bomb"],
+                "    let r = std::panic::catch_unwind(|| {", "        " + mk, "        " + stmt + ";"]
+        for b in bound:
+            body.append("        drop(%s);" % b)
+        body += ["    });", "    let _ = r;", "    finish_unwound(%d)" % total]
+        return "%s\nfn run_%d() -> Vec<String> {\n%s\n}" % (decl, i, "\n".join(body))
     body = []
     body.append("    reset();")
     # everything the macro expands to lives in an inner scope: hidden locals are dropped before the verdict
